@@ -495,8 +495,32 @@ func c02SQL(p *Prog, c *Check) {
 		"(*keyperimpl/shutterservice.MessagingMiddleware).interceptDecryptionKeys": true,
 	}
 	callers := p.CG().Callers(uf)
+	// a helper that only the allowed functions reach counts as part of them
+	var onlyFrom func(f *ssa.Function, depth int) bool
+	onlyFrom = func(f *ssa.Function, depth int) bool {
+		f = origin(f)
+		for f.Parent() != nil {
+			f = f.Parent()
+		}
+		if allowed[shortFn(f)] {
+			return true
+		}
+		if depth >= 2 || f.Object() == nil || f.Object().Exported() {
+			return false
+		}
+		cs := p.CG().Callers(f)
+		if len(cs) == 0 {
+			return false
+		}
+		for _, c2 := range cs {
+			if c2.Instr.Common().IsInvoke() || !onlyFrom(c2.Caller, depth+1) {
+				return false
+			}
+		}
+		return true
+	}
 	for i, cs := range callers {
-		c.Result(allowed[shortFn(cs.Caller)], rule+".own", fmt.Sprintf("updateEventFlag@%s#%d", shortFn(cs.Caller), i+1), p.siteOf(cs.Instr), shortFn(cs.Caller), "call of updateEventFlag", "identities are marked decrypted somewhere other than on a validated keys message or a locally aggregated one", "keys handler / keys interceptor")
+		c.Result(onlyFrom(cs.Caller, 0), rule+".own", fmt.Sprintf("updateEventFlag@%s#%d", shortFn(cs.Caller), i+1), p.siteOf(cs.Instr), shortFn(cs.Caller), "call of updateEventFlag", "identities are marked decrypted somewhere other than on a validated keys message or a locally aggregated one", "keys handler / keys interceptor")
 	}
 	c.Floor(rule+".callers", len(callers), 2)
 }
